@@ -25,7 +25,7 @@ EDGE32 = [0, 1, 2 ** 31 - 1, 2 ** 31, 2 ** 31 + 1, 2 ** 32 - 2, 2 ** 32 - 1]
 
 
 def plan(tier):
-    n = 150 if tier == "quick" else 2500
+    n = 450 if tier == "quick" else 2500
     return [{"kind": "hyp", "fam": f, "n": n if f != "container" else max(40, n // 5)} for f in FAMS for _ in range(2)]
 
 
